@@ -269,3 +269,536 @@ def zip_truncations(ctx, fn):
         if (rowish[1] and fieldish[0]) or (rowish[0] and fieldish[1]):
             out.append(ev.node)
     return out
+
+
+# ------------------------------------------------------------------ truth tests of values whose domain has falsy members
+def truth_operands(test, out=None):
+    """the bare names a test evaluates for truth (through `not`, and / or)"""
+    out = [] if out is None else out
+    if isinstance(test, ast.Name):
+        out.append(test)
+    elif isinstance(test, ast.UnaryOp) and isinstance(test.op, ast.Not):
+        truth_operands(test.operand, out)
+    elif isinstance(test, ast.BoolOp):
+        for v in test.values:
+            truth_operands(v, out)
+    return out
+
+
+def truth_tested_names(fn_node):
+    """[(Name node)] of every name the function tests for truth (if / while / conditional expression / not / and / or /
+    bool())"""
+    from ..loader import own_nodes
+    out = []
+    seen = set()
+    for n in own_nodes(fn_node):
+        ts = []
+        if isinstance(n, (ast.If, ast.While, ast.IfExp)):
+            truth_operands(n.test, ts)
+        elif isinstance(n, ast.BoolOp):
+            for v in n.values:
+                truth_operands(v, ts)
+        elif isinstance(n, ast.UnaryOp) and isinstance(n.op, ast.Not):
+            truth_operands(n.operand, ts)
+        elif isinstance(n, ast.Call) and isinstance(n.func, ast.Name) and n.func.id == 'bool' and len(n.args) == 1:
+            truth_operands(n.args[0], ts)
+        elif isinstance(n, ast.comprehension):
+            for t in n.ifs:
+                truth_operands(t, ts)
+        for t in ts:
+            if id(t) not in seen:
+                seen.add(id(t))
+                out.append(t)
+    return out
+
+
+def field_selector_params(fn_node):
+    """parameters the function uses as ONE field selector (a field name or a position): handed as the selection to
+    asindices(hdr, P) / hdr.index(P) / itemgetter(P) or used as a subscript.  Position 0 and the field name '' are
+    valid selectors and falsy."""
+    from ..loader import own_nodes
+    a = fn_node.args
+    params = {x.arg for x in a.posonlyargs + a.args + a.kwonlyargs}
+    out = {}
+    for n in own_nodes(fn_node):
+        if isinstance(n, ast.Call):
+            f = n.func
+            fname = f.id if isinstance(f, ast.Name) else (f.attr if isinstance(f, ast.Attribute) else None)
+            cands = []
+            if fname == 'asindices' and len(n.args) >= 2:
+                cands.append(n.args[1])
+            elif fname == 'index' and isinstance(f, ast.Attribute) and len(n.args) == 1:
+                cands.append(n.args[0])
+            elif fname in ('itemgetter', 'comparable_itemgetter', 'rowgetter') and len(n.args) == 1:
+                cands.append(n.args[0])
+            for c in cands:
+                if isinstance(c, ast.Name) and c.id in params and not c.id.endswith('s'):
+                    # (a plural parameter -- fields, fillfields, keys -- holds a collection of selectors, whose
+                    # emptiness is a legitimate test)
+                    out.setdefault(c.id, n)
+    return out
+
+
+def falsy_selector_tests(fn_node):
+    """[(param, test Name node, use node)]: a field-selector parameter is tested for truth -- position 0 / the field
+    named '' is then taken for "no field given"."""
+    sel = field_selector_params(fn_node)
+    if not sel:
+        return []
+    out = []
+    for t in truth_tested_names(fn_node):
+        if t.id in sel:
+            out.append((t.id, t, sel[t.id]))
+    return out
+
+
+def check_selector_truth(ctx, rep, rule, fns):
+    """report every truth test of a field-selector parameter; returns the number of functions with such a parameter"""
+    n = 0
+    for fn in fns:
+        sel = field_selector_params(fn.node)
+        if not sel:
+            continue
+        n += 1
+        bad = falsy_selector_tests(fn.node)
+        for par, t, use in bad:
+            rep.violated(rule, fn, 'truth test of `%s`' % par,
+                         'the field selector `%s` (used in `%s`) is tested for truth: position 0 and a field named \'\' are '
+                         'valid selectors and falsy, so they are taken for "no field given"' % (par, norm(use)[:60]), t)
+        if not bad:
+            rep.held(rule, fn, 'selectors %s never tested for truth' % sorted(sel), '', fn.node)
+    return n
+
+
+# ------------------------------------------------------------------ which table does a getter / a row belong to
+_GETTER_MAKERS = ('itemgetter', 'operator.itemgetter', 'comparable_itemgetter', 'rowgetter', '_itemgetter_with_default')
+
+
+def side_mismatches(fn_node):
+    """In a function that reads several tables: a key/value getter built from the header of one table (itemgetter(*asindices(
+    hdr_of_A, key))) applied to a row of another table reads the wrong columns.  Returns [(call node, getter side, row
+    side)] for every application G(row) / groupby(rows, key=G) where both sides are known, single and different.
+    A side is the iterator variable the header was taken from / the rows are drawn from."""
+    assigns = {}
+    loops = []
+    for n in ast.walk(fn_node):
+        if isinstance(n, ast.Assign) and len(n.targets) == 1:
+            t = n.targets[0]
+            if isinstance(t, ast.Name):
+                assigns.setdefault(t.id, []).append(n.value)
+            elif isinstance(t, (ast.Tuple, ast.List)):
+                for x in t.elts:
+                    if isinstance(x, ast.Name):
+                        assigns.setdefault(x.id, []).append(n.value)
+        elif isinstance(n, (ast.For, ast.comprehension)):
+            loops.append(n)
+        elif isinstance(n, ast.AugAssign) and isinstance(n.target, ast.Name):
+            assigns.setdefault(n.target.id, []).append(n.value)
+    roots = set()
+    for k, vs in assigns.items():
+        for v in vs:
+            if isinstance(v, ast.Call) and isinstance(v.func, ast.Name) and v.func.id == 'iter' and len(v.args) == 1:
+                roots.add(k)
+    if len(roots) < 2:
+        return []
+    side = {r: {r} for r in roots}
+
+    transparent = ('next', 'iter', 'list', 'tuple', 'map', 'sorted', 'islice', 'itertools.islice', 'chain',
+                   'itertools.chain', 'enumerate', 'groupby', 'itertools.groupby', 'rowgroupby', 'reversed')
+
+    def deps(e):
+        # only through expressions that hand rows / headers / positions of one table on; the result of any other
+        # call (a lookup, a search) belongs to no side
+        if isinstance(e, ast.Name):
+            return set(side.get(e.id, ()))
+        if isinstance(e, ast.Starred):
+            return deps(e.value)
+        if isinstance(e, ast.Subscript):
+            return deps(e.value)
+        if isinstance(e, (ast.Tuple, ast.List)):
+            out = set()
+            for x in e.elts:
+                out |= deps(x)
+            return out
+        if isinstance(e, ast.Call):
+            f = norm(e.func)
+            if f == 'asindices' and e.args:
+                return deps(e.args[0])
+            if f in _GETTER_MAKERS or f in transparent:
+                out = set()
+                for x in e.args:
+                    if isinstance(x, ast.Name) and x.id in ('text_type', 'str', 'Comparable'):
+                        continue
+                    out |= deps(x)
+                return out
+            return set()
+        if isinstance(e, (ast.ListComp, ast.GeneratorExp)):
+            out = set()
+            for g in e.generators:
+                out |= deps(g.iter)
+            return out
+        return set()
+
+    for _ in range(6):
+        changed = False
+        for k, vs in assigns.items():
+            if k in roots:
+                continue
+            d = set()
+            for v in vs:
+                d |= deps(v)
+            if d and side.get(k) != d:
+                side[k] = d
+                changed = True
+        for l in loops:
+            d = deps(l.iter)
+            if d:
+                for x in ast.walk(l.target):
+                    if isinstance(x, ast.Name) and x.id not in roots and side.get(x.id) != d:
+                        # a loop variable bound in several loops: union
+                        side[x.id] = side.get(x.id, set()) | d
+                        changed = True
+        if not changed:
+            break
+    getters = set()
+    for k, vs in assigns.items():
+        if all(isinstance(v, ast.Call) and norm(v.func) in _GETTER_MAKERS for v in vs):
+            getters.add(k)
+    out = []
+    for n in ast.walk(fn_node):
+        if not isinstance(n, ast.Call):
+            continue
+        if isinstance(n.func, ast.Name) and n.func.id in getters and len(n.args) == 1:
+            gs, rs = side.get(n.func.id, set()), deps(n.args[0])
+            if len(gs) == 1 and len(rs) == 1 and gs != rs:
+                out.append((n, sorted(gs)[0], sorted(rs)[0]))
+        elif norm(n.func) in ('itertools.groupby', 'groupby', 'rowgroupby') and n.args:
+            key = None
+            if len(n.args) >= 2:
+                key = n.args[1]
+            for kw in n.keywords:
+                if kw.arg == 'key':
+                    key = kw.value
+            if isinstance(key, ast.Name) and key.id in getters:
+                gs, rs = side.get(key.id, set()), deps(n.args[0])
+                if len(gs) == 1 and len(rs) == 1 and gs != rs:
+                    out.append((n, sorted(gs)[0], sorted(rs)[0]))
+    return out
+
+
+def check_side_mismatches(ctx, rep, rule, fns):
+    """report every key / value getter applied to rows of another table than the one whose header it was built from;
+    returns the number of functions that read two or more tables"""
+    n = 0
+    for fn in fns:
+        roots = 0
+        for x in ast.walk(fn.node):
+            if isinstance(x, ast.Assign) and isinstance(x.value, ast.Call) and isinstance(x.value.func, ast.Name) and \
+                    x.value.func.id == 'iter' and len(x.value.args) == 1:
+                roots += 1
+        if roots < 2:
+            continue
+        n += 1
+        bad = side_mismatches(fn.node)
+        for call, gs, rs in bad:
+            rep.violated(rule, fn, norm(call)[:60],
+                         'the getter `%s` was built from the header read from `%s` but is applied to rows drawn from `%s`: '
+                         'whenever the key / value fields sit at different positions in the two tables the wrong cells are '
+                         'read' % (norm(call.func) if not isinstance(call.func, ast.Attribute) else norm(call), gs, rs), call)
+        if not bad:
+            rep.held(rule, fn, 'getters applied to rows of their own table', '', fn.node)
+    return n
+
+
+# ------------------------------------------------------------------ closures created in a loop
+def _bound_names(target):
+    return {x.id for x in ast.walk(target) if isinstance(x, ast.Name)}
+
+
+def _free_loads(closure):
+    """names a lambda / nested def reads that are not its own parameters or locals"""
+    a = closure.args
+    own = {x.arg for x in a.posonlyargs + a.args + a.kwonlyargs}
+    if a.vararg:
+        own.add(a.vararg.arg)
+    if a.kwarg:
+        own.add(a.kwarg.arg)
+    body = [closure.body] if isinstance(closure, ast.Lambda) else closure.body
+    loads = []
+    for b in body:
+        for x in ast.walk(b):
+            if isinstance(x, ast.Name):
+                if isinstance(x.ctx, ast.Store):
+                    own.add(x.id)
+                else:
+                    loads.append(x)
+            elif isinstance(x, ast.comprehension):
+                own |= _bound_names(x.target)
+            elif isinstance(x, (ast.Lambda,)):
+                own |= {y.arg for y in x.args.args}
+    return [x for x in loads if x.id not in own]
+
+
+def late_binding_closures(fn_node):
+    """[(closure node, variable, loop)]: a lambda / nested function created inside a loop reads a variable the loop
+    re-binds on every pass, and the closure outlives the pass (it is stored in a container / attribute).  When it is
+    called later it sees the value of the LAST pass, not of the pass that created it."""
+    out = []
+    for loop in ast.walk(fn_node):
+        if not isinstance(loop, (ast.For, ast.While)):
+            continue
+        rebound = set()
+        if isinstance(loop, ast.For):
+            rebound |= _bound_names(loop.target)
+        for s in loop.body:
+            for x in ast.walk(s):
+                if isinstance(x, ast.Assign):
+                    for t in x.targets:
+                        if isinstance(t, (ast.Name, ast.Tuple, ast.List)):
+                            rebound |= {y.id for y in ast.walk(t) if isinstance(y, ast.Name) and isinstance(y.ctx, ast.Store)}
+                elif isinstance(x, (ast.For, ast.comprehension)):
+                    pass
+        # closures that escape the pass
+        pm = {}
+        for s in loop.body:
+            for p in ast.walk(s):
+                for c in ast.iter_child_nodes(p):
+                    pm[id(c)] = p
+        for s in loop.body:
+            for x in ast.walk(s):
+                if isinstance(x, ast.FunctionDef):
+                    # def made in the loop: leaves the pass when its name does
+                    def _esc_name(node):
+                        par = pm.get(id(node))
+                        if isinstance(par, ast.Assign) and par.value is node and \
+                                any(isinstance(t, (ast.Subscript, ast.Attribute)) for t in par.targets):
+                            return True
+                        if isinstance(par, ast.Call) and isinstance(par.func, ast.Attribute) and \
+                                par.func.attr in ('append', 'add', 'setdefault', 'insert') and any(a is node for a in par.args):
+                            return True
+                        if isinstance(par, (ast.Tuple, ast.List)):
+                            return _esc_name(par)
+                        return False
+                    if any(isinstance(y, ast.Name) and y.id == x.name and isinstance(y.ctx, ast.Load) and _esc_name(y)
+                           for s2 in loop.body for y in ast.walk(s2)):
+                        for ld in _free_loads(x):
+                            if ld.id in rebound and ld.id != x.name:
+                                out.append((x, ld.id, loop))
+                                break
+                    continue
+                if not isinstance(x, ast.Lambda):
+                    continue
+                def _escapes(node):
+                    par = pm.get(id(node))
+                    if isinstance(par, ast.Assign) and par.value is node and \
+                            any(isinstance(t, (ast.Subscript, ast.Attribute)) for t in par.targets):
+                        return True
+                    if isinstance(par, ast.Call) and isinstance(par.func, ast.Attribute) and \
+                            par.func.attr in ('append', 'add', 'setdefault', 'insert') and any(a is node for a in par.args):
+                        return True
+                    if isinstance(par, (ast.Tuple, ast.List)):
+                        return _escapes(par)
+                    return False
+                escapes = _escapes(x)
+                par = pm.get(id(x))
+                if not escapes and isinstance(par, ast.Assign) and par.value is x and len(par.targets) == 1 and \
+                        isinstance(par.targets[0], ast.Name):
+                    # bound to a local first: does the local leave the pass?
+                    alias = par.targets[0].id
+                    for s2 in loop.body:
+                        for y in ast.walk(s2):
+                            if isinstance(y, ast.Name) and y.id == alias and isinstance(y.ctx, ast.Load) and _escapes(y):
+                                escapes = True
+                if not escapes:
+                    continue
+                defaults = {norm(d) for d in x.args.defaults + [d for d in x.args.kw_defaults if d is not None]}
+                for ld in _free_loads(x):
+                    if ld.id in rebound:
+                        out.append((x, ld.id, loop))
+                        break
+    return out
+
+
+def check_late_binding(ctx, rep, rule, fns):
+    n = 0
+    for fn in fns:
+        if not any(isinstance(x, (ast.For, ast.While)) for x in ast.walk(fn.node)):
+            continue
+        n += 1
+        seen = set()
+        for clo, var, loop in late_binding_closures(fn.node):
+            if id(clo) in seen:
+                continue
+            seen.add(id(clo))
+            what = norm(clo)[:60] if isinstance(clo, ast.Lambda) else 'def ' + clo.name
+            rep.violated(rule, fn, what,
+                         'the function created here is kept beyond the pass of the loop that creates it and reads `%s`, '
+                         'which the loop binds anew on every pass: when it is called, every such function sees the value of '
+                         'the last pass (all fields are converted / aggregated with the last specification)' % var, clo)
+    rep.held(rule, ('petl', '*'), 'closures created in loops', '%d functions with loops scanned' % n, None)
+    return n
+
+
+# ------------------------------------------------------------------ zip_longest: the fill value is the exhaustion marker
+def fill_mismatches(fn_node):
+    """[(compare node, target, fill text)]: inside `for ... in zip_longest(..., fillvalue=F)` an element of the loop
+    target is compared with None although the marker for an exhausted input is F (not None): the exhausted side is not
+    recognised and F itself is processed as if it were a row."""
+    out = []
+    for loop in ast.walk(fn_node):
+        if not isinstance(loop, ast.For) or not isinstance(loop.iter, ast.Call):
+            continue
+        f = loop.iter.func
+        fname = f.id if isinstance(f, ast.Name) else (f.attr if isinstance(f, ast.Attribute) else '')
+        if fname not in ('izip_longest', 'zip_longest'):
+            continue
+        fill = None
+        for k in loop.iter.keywords:
+            if k.arg == 'fillvalue':
+                fill = k.value
+        if fill is None or (isinstance(fill, ast.Constant) and fill.value is None):
+            continue
+        targets = _bound_names(loop.target)
+        # elements drawn from the tuple of rows by an inner loop
+        grew = True
+        while grew:
+            grew = False
+            for x in ast.walk(loop):
+                if isinstance(x, (ast.For, ast.comprehension)) and x is not loop:
+                    it = x.iter
+                    if isinstance(it, ast.Call) and isinstance(it.func, ast.Name) and it.func.id == 'enumerate' and it.args:
+                        it = it.args[0]
+                    if isinstance(it, ast.Name) and it.id in targets:
+                        new = _bound_names(x.target) - targets
+                        if new:
+                            targets |= new
+                            grew = True
+        for s in loop.body:
+            for x in ast.walk(s):
+                if isinstance(x, ast.Compare) and len(x.ops) == 1 and isinstance(x.ops[0], (ast.Is, ast.IsNot, ast.Eq, ast.NotEq)):
+                    l, r = x.left, x.comparators[0]
+                    for a, b in ((l, r), (r, l)):
+                        if isinstance(a, ast.Name) and a.id in targets and isinstance(b, ast.Constant) and b.value is None:
+                            out.append((x, a.id, norm(fill)))
+    return out
+
+
+def check_fill_mismatches(ctx, rep, rule, fns):
+    n = 0
+    for fn in fns:
+        loops = [l for l in ast.walk(fn.node) if isinstance(l, ast.For) and isinstance(l.iter, ast.Call) and
+                 norm(l.iter.func).split('.')[-1] in ('izip_longest', 'zip_longest')]
+        if not loops:
+            continue
+        n += 1
+        bad = fill_mismatches(fn.node)
+        for cmp_, tgt, fill in bad:
+            rep.violated(rule, fn, norm(cmp_),
+                         '`%s` comes out of zip_longest(..., fillvalue=%s): the marker for an exhausted input is %s, not None, so '
+                         'this test never fires for it and the fill value is treated as a row (its characters / cells are '
+                         'copied, or iteration fails)' % (tgt, fill, fill), cmp_)
+        if not bad:
+            rep.held(rule, fn, 'zip_longest exhaustion test', 'agrees with the fill value', loops[0])
+    return n
+
+
+# ------------------------------------------------------------------ dict entries made only inside a data loop
+def zero_trip_dict_reads(fn_node):
+    """[(subscript node, dict name, loop)]: a plain dict created empty before a loop gets all of its entries inside that
+    loop and is subscripted (read) after it, unguarded: when the loop makes no pass (no data rows) the key is missing
+    and the read raises KeyError.  (defaultdict / Counter / .get / `in` tests / except KeyError are fine.)"""
+    from ..loader import own_nodes
+    created = {}
+    for x in own_nodes(fn_node):
+        if isinstance(x, ast.Assign) and len(x.targets) == 1 and isinstance(x.targets[0], ast.Name):
+            v = x.value
+            if (isinstance(v, ast.Dict) and not v.keys) or \
+                    (isinstance(v, ast.Call) and isinstance(v.func, ast.Name) and v.func.id in ('dict', 'OrderedDict') and
+                     not v.args and not v.keywords):
+                created.setdefault(x.targets[0].id, []).append(x)
+    created = {k: v[0] for k, v in created.items() if len(v) == 1}
+    if not created:
+        return []
+    pm = {}
+    for p in ast.walk(fn_node):
+        for c in ast.iter_child_nodes(p):
+            pm[id(c)] = p
+
+    def loops_of(n):
+        out = []
+        cur = n
+        while id(cur) in pm:
+            cur = pm[id(cur)]
+            if isinstance(cur, (ast.For, ast.While)):
+                out.append(cur)
+            if cur is fn_node:
+                break
+        return out
+    out = []
+    for name, cre in created.items():
+        stores, reads = [], []
+        other = False
+        for x in own_nodes(fn_node):
+            if isinstance(x, ast.Subscript) and isinstance(x.value, ast.Name) and x.value.id == name:
+                (stores if isinstance(x.ctx, (ast.Store, ast.Del)) else reads).append(x)
+            elif isinstance(x, ast.Call) and isinstance(x.func, ast.Attribute) and isinstance(x.func.value, ast.Name) and \
+                    x.func.value.id == name:
+                if x.func.attr in ('setdefault', 'update', '__setitem__'):
+                    stores.append(x)
+            elif isinstance(x, ast.Name) and x.id == name and isinstance(x.ctx, ast.Load):
+                par = pm.get(id(x))
+                if not (isinstance(par, ast.Subscript) and par.value is x) and \
+                        not (isinstance(par, ast.Attribute) and par.value is x):
+                    other = True        # handed to something else (may be filled there)
+        if other or not stores or not reads:
+            continue
+        sl = [loops_of(s) for s in stores]
+        if not all(sl):
+            continue                    # some entry is made outside any loop
+        # the outermost loop common to all stores
+        common = [l for l in sl[0] if all(l in ls for ls in sl)]
+        if not common:
+            continue
+        loop = common[-1]
+        if loop.lineno < cre.lineno:
+            continue
+        for r in reads:
+            if loop in loops_of(r) or r.lineno < loop.lineno:
+                continue
+            # a store like d[k] += 1 / d[k].append shows up as a read too, but inside the loop (excluded above)
+            guarded = False
+            cur = r
+            while id(cur) in pm and cur is not fn_node:
+                par = pm[id(cur)]
+                if isinstance(par, ast.Try) and any(cur is b for b in par.body) and any(
+                        h.type is None or 'KeyError' in ast.dump(h.type) or 'Exception' in ast.dump(h.type) or
+                        'LookupError' in ast.dump(h.type) for h in par.handlers):
+                    guarded = True
+                if isinstance(par, (ast.If, ast.IfExp)) and any(
+                        isinstance(t, ast.Compare) and any(isinstance(o, (ast.In, ast.NotIn)) for o in t.ops) and
+                        any(isinstance(c, ast.Name) and c.id == name for c in t.comparators) for t in ast.walk(par.test)):
+                    guarded = True
+                if isinstance(par, (ast.For, ast.comprehension)) and any(
+                        isinstance(y, ast.Name) and y.id == name for y in ast.walk(par.iter)):
+                    guarded = True          # iterating the dict's own keys
+                if isinstance(par, (ast.For, ast.comprehension)) and norm(par.iter) == norm(loop.iter if isinstance(loop, ast.For) else loop.test):
+                    guarded = True          # read once per item of the very sequence the entries were made for
+                if isinstance(par, (ast.GeneratorExp, ast.ListComp, ast.SetComp, ast.DictComp)) and any(
+                        norm(g.iter) == norm(loop.iter if isinstance(loop, ast.For) else loop.test) for g in par.generators):
+                    guarded = True
+                cur = par
+            if not guarded:
+                out.append((r, name, loop))
+    return out
+
+
+def check_zero_trip_dicts(ctx, rep, rule, fns):
+    n = 0
+    for fn in fns:
+        n += 1
+        for node, name, loop in zero_trip_dict_reads(fn.node):
+            rep.violated(rule, fn, norm(node)[:50],
+                         'the dict `%s` gets its entries only inside the loop `%s`; when that loop makes no pass (a table with a '
+                         'header and no data rows) this read raises KeyError' % (name, norm(loop)[:40]), node)
+    rep.held(rule, ('petl', '*'), 'dicts filled in data loops', '%d functions scanned' % n, None)
+    return n
